@@ -58,6 +58,9 @@ def generate(seed, tier, index):
                 if rng.random() < 0.2:
                     other = rng.choice([e for e in ELEMENTS if e != (vec, el)])
                     h["on"].append(list(other))
+                if not h.get("dynamic") and rng.random() < 0.12:
+                    # one and the same method subscribed to both event kinds of the element (an audit / logging handler)
+                    h["also"] = "Change" if kind == "Write" else "Write"
                 if hier != "flat" and not h.get("dynamic"):
                     h["where"] = rng.choice(["base", "derived"])
                     if hier == "override" and rng.random() < 0.5:
@@ -147,11 +150,11 @@ def build_driver(scen, trace, sim):
             continue
 
         def rec(event, hid=i, h=h):
-            entry = {"t": sim.loop.time(), "what": "handler", "hid": hid, "kind": h["kind"], "coro": h["coro"], "el": event.element.name,
+            entry = {"t": sim.loop.time(), "what": "handler", "hid": hid, "kind": type(event).__name__, "coro": h["coro"], "el": event.element.name,
                      "vec": event.vector.name, "at_entry": event.element._value, "new": getattr(event, "new_value", None),
                      "old": getattr(event, "old_value", None)}
             trace.append(entry)
-            if h["veto"]:
+            if h["veto"] and isinstance(event, Write):
                 event.prevent_default = True
 
         if h["coro"]:
@@ -162,6 +165,8 @@ def build_driver(scen, trace, sim):
                 rec(event)
         fn.__name__ = f"h{i}"
         dct[f"h{i}"] = on(srcs if len(srcs) > 1 else srcs[0], cls_kind[h["kind"]])(fn)
+        if h.get("also"):
+            dct[f"h{i}"] = on(srcs if len(srcs) > 1 else srcs[0], cls_kind[h["also"]])(dct[f"h{i}"])
         placement[f"h{i}"] = h.get("where", "derived")
         if h.get("overridden"):
             def shadowed(self, event, hid=i, h=h):
@@ -249,7 +254,7 @@ def execute(scen):
             return vec != scen["disabled_vec"]
 
         def subscribed(kind, vec, el):
-            return [i for i, h in enumerate(scen["handlers"]) if h["kind"] == kind and [vec, el] in h["on"]
+            return [i for i, h in enumerate(scen["handlers"]) if kind in (h["kind"], h.get("also")) and [vec, el] in h["on"]
                     and (not h.get("dynamic") or dynamic[i]["uids"] is not None)]
 
         def check_element_op(opname, vec, el, requested, old, mark, raised_write, ctx):
